@@ -52,10 +52,24 @@ package fatigue
 //@   ensures  abs(blurred(v, u, 1.0, f) - v) <= abs(f * v) && abs(blurred(v, u, -1.0, f) - v) <= abs(f * v)
 //@   ensures  f == 0.0 ==> blurred(v, u, 1.0, f) == v && blurred(v, u, -1.0, f) == v
 
+// clippedFrom: the clipping interval of a bounding is the range r scaled about its centre by the configured factor
+//@ pred clippedFrom(b criteria_bounding.CriteriaInRangeBounding, r utils.ValueRange) =
+//@      b.valueRange.Min == utils.scaledMin(r, b.bounding.AllowedValuesRangeScaling) && b.valueRange.Max == utils.scaledMax(r, b.bounding.AllowedValuesRangeScaling)
+
 //@ func matchCriteriaWithBoundings
 //@   property C17
 //@   ensures [criteria_in_order] fresh(result) && len(result) == len(dmp.Criteria) && forall k int :: 0 <= k && k < len(dmp.Criteria) ==> result[k].criterion == dmp.Criteria[k]
+//@   ensures [clipping_interval_from_declared_range] forall k int :: 0 <= k && k < len(dmp.Criteria) && dmp.Criteria[k].ValuesRange != nil ==> result[k].bounding != nil
+//@             && (result[k].bounding.valueRange != nil ==> clippedFrom(*result[k].bounding, old(*dmp.Criteria[k].ValuesRange)))
+//@   ensures [clipping_interval_from_all_known_alternatives reveal:observed] forall k int :: 0 <= k && k < len(dmp.Criteria) && dmp.Criteria[k].ValuesRange == nil ==> result[k].bounding != nil
+//@             && (result[k].bounding.valueRange != nil ==> exists r utils.ValueRange :: model.observedAll(r, dmp.ConsideredAlternatives, dmp.NotConsideredAlternatives, dmp.Criteria[k].Id) && clippedFrom(*result[k].bounding, r))
 //@   loop 1 invariant [filled] fresh(result) && len(result) == len(dmp.Criteria) && forall k int :: 0 <= k && k < iter ==> result[k].criterion == dmp.Criteria[k]
+//@   loop 1 invariant [ctx] len(alternatives) == len(dmp.ConsideredAlternatives) + len(dmp.NotConsideredAlternatives) && bounding != nil
+//@             && forall k int :: 0 <= k && k < len(alternatives) ==> alternatives[k] == model.altAt(dmp.ConsideredAlternatives, dmp.NotConsideredAlternatives, k)
+//@   loop 1 invariant [declared] forall k int :: 0 <= k && k < iter && dmp.Criteria[k].ValuesRange != nil ==> result[k].bounding != nil
+//@             && (result[k].bounding.valueRange != nil ==> clippedFrom(*result[k].bounding, old(*dmp.Criteria[k].ValuesRange)))
+//@   loop 1 invariant [observed] forall k int :: 0 <= k && k < iter && dmp.Criteria[k].ValuesRange == nil ==> result[k].bounding != nil
+//@             && (result[k].bounding.valueRange != nil ==> exists r utils.ValueRange :: model.observed(r, alternatives, dmp.Criteria[k].Id) && clippedFrom(*result[k].bounding, r))
 
 //@ func prepareResult
 //@   property C17 C09
